@@ -13,10 +13,13 @@ import (
 	"bytes"
 	"encoding/hex"
 	"fmt"
+	"io"
 	"math/big"
 	"math/rand"
+	"net"
 	"os"
 	"path/filepath"
+	"syscall"
 	"time"
 
 	"github.com/glowlabs-org/gca-backend/server"
@@ -46,6 +49,7 @@ func main() {
 		Post: func(c *ev.Check, outs []*run.Outcome) {
 			c.Require("accepted_positive_controls", 4)
 			c.Require("via_socket", 10)
+			c.Require("queued.judged", 1)
 			for _, g := range []string{"rej.length", "rej.unknown_device", "rej.banned_device", "rej.signature", "rej.time_window", "rej.storage_window", "rej.sentinel"} {
 				c.Require(g, 1)
 			}
@@ -550,6 +554,131 @@ func (w *world) datagrams(now, offset uint32, full bool) []dg {
 	return out
 }
 
+// queuedAcrossClockChange: datagrams that arrive while the server lock is held for a long time
+// (a rotation parked in its file append: the history file is a named pipe for the moment) and that
+// can only be processed after the clock has moved on. "Within 432 slots of the server's current
+// timeslot" is judged when the report can change state, i.e. after the lock became available.
+func (w *world) queuedAcrossClockChange() {
+	snap := w.S.VerifSnapshot(false)
+	off := snap.Offset
+	now := off + 3201
+	drv.SetClock(now)
+	path := filepath.Join(w.Dir, "allDeviceStats.dat")
+	keep := path + ".keep"
+	if err := os.Rename(path, keep); err != nil {
+		return
+	}
+	restore := func(extra []byte) {
+		os.Remove(path)
+		os.Rename(keep, path)
+		if len(extra) > 0 {
+			if f, err := os.OpenFile(path, os.O_APPEND|os.O_WRONLY, 0644); err == nil {
+				f.Write(extra)
+				f.Close()
+			}
+		}
+	}
+	if err := syscall.Mkfifo(path, 0644); err != nil {
+		restore(nil)
+		return
+	}
+	arrived := make(chan struct{}, 8)
+	server.VerifSetHook("udp.ready", func(*server.GCAServer) { arrived <- struct{}{} })
+	defer server.VerifSetHook("udp.ready", func(*server.GCAServer) {})
+	run.Op("queued-across-clock-change now=%d offset=%d", now, off)
+	rotated := make(chan int, 1)
+	go func() { rotated <- drv.StepRotation() }()
+	// the rotation must be parked inside its critical section: the main mutex stays taken
+	parked := 0
+	for i := 0; i < 2500 && parked < 30; i++ {
+		if mf, _ := w.S.VerifTryLock(); mf {
+			parked = 0
+		} else {
+			parked++
+		}
+		time.Sleep(2 * time.Millisecond)
+	}
+	var drained []byte
+	drain := func() {
+		if f, err := os.OpenFile(path, os.O_RDONLY, 0); err == nil {
+			drained, _ = io.ReadAll(f)
+			f.Close()
+		}
+	}
+	if parked < 30 {
+		// not established (e.g. the rotation did not start): unblock whatever waits and leave
+		go drain()
+		select {
+		case <-rotated:
+		case <-time.After(20 * time.Second):
+		}
+		restore(drained)
+		w.r.Count("queued.not_established", 1)
+		return
+	}
+	late := w.A.Report(now-432, 2+uint64(w.rng.Intn(1000)))   // 434 slots old once the clock has moved
+	ontime := w.A.Report(now-430, 2+uint64(w.rng.Intn(1000))) // 432 slots old then: still acceptable
+	conn, err := net.Dial("udp", fmt.Sprintf("127.0.0.1:%d", w.UDP))
+	if err != nil {
+		go drain()
+		<-rotated
+		restore(drained)
+		return
+	}
+	defer conn.Close()
+	handledBefore := server.VerifUDPHandled()
+	conn.Write(late.Bytes())
+	conn.Write(ontime.Bytes())
+	got := 0
+	for got < 2 {
+		select {
+		case <-arrived:
+			got++
+		case <-time.After(5 * time.Second):
+			got = 99
+		}
+	}
+	time.Sleep(30 * time.Millisecond) // let both handlers reach the mutex (only widens the window)
+	drv.SetClock(now + 2)
+	drain() // lets the parked rotation finish; the queued handlers run after it
+	select {
+	case n := <-rotated:
+		if n != 1 {
+			w.r.Count("queued.not_established", 1)
+		}
+	case <-time.After(30 * time.Second):
+		w.r.Inconc("the rotation parked on the named pipe did not finish")
+		restore(drained)
+		return
+	}
+	restore(drained)
+	for i := 0; i < 5000 && server.VerifUDPHandled() < handledBefore+2; i++ {
+		time.Sleep(time.Millisecond)
+	}
+	if got != 2 || server.VerifUDPHandled() < handledBefore+2 {
+		w.r.Count("queued.not_established", 1)
+		return
+	}
+	after := w.S.VerifSnapshot(true)
+	rep := map[string]interface{}{"now_at_arrival": now, "now_when_lock_became_free": now + 2, "offset_after_rotation": after.Offset, "late": hex.EncodeToString(late.Bytes()), "ontime": hex.EncodeToString(ontime.Bytes())}
+	w.r.Eval(2)
+	w.r.Nontrivial(fmt.Sprintf("queued/%d/%d", now, off))
+	arr := after.Reports[w.A.ID]
+	if arr == nil || after.Offset != off+2016 {
+		w.r.Count("queued.not_established", 1)
+		return
+	}
+	if got := arr[int(late.Slot-after.Offset)]; got.PowerOutput != 0 {
+		w.r.Violationf("stale-report-integrated-after-waiting-for-the-lock", rep, "a report for slot %d arrived at clock %d, waited for the server lock and was integrated at clock %d (434 slots old)", late.Slot, now, now+2)
+	}
+	if got := arr[int(ontime.Slot-after.Offset)]; drv.RefReport(got) != ontime {
+		w.r.Violationf("acceptable-report-not-recorded", rep, "a report for slot %d (432 slots old when the lock became free) that waited for the server lock was not recorded", ontime.Slot)
+	} else {
+		w.r.Count("queued.control_accepted", 1)
+	}
+	w.r.Count("queued.judged", 1)
+}
+
 // ---------------------------------------------------------------- child
 
 func child(b run.Batch, r *ev.Result) {
@@ -684,6 +813,9 @@ func round(b run.Batch, r *ev.Result, seed int64, k int) {
 				r.Sample(map[string]interface{}{"now": now, "offset": off, "class": dgs[len(dgs)/2].class, "bytes": hex.EncodeToString(dgs[len(dgs)/2].b)})
 			}
 		}
+	}
+	if slice%2 == 1 && r.NumViolations() == 0 {
+		w.queuedAcrossClockChange()
 	}
 	if mf, sf := w.S.VerifTryLock(); !mf || !sf {
 		r.Violationf("lock-held-at-quiescence", nil, "a server mutex is still held after all datagrams were processed (main free=%v, servers free=%v)", mf, sf)
